@@ -72,7 +72,10 @@ class SetInterp(PyInterp):
         out = []
         for a in n.args:
             if isinstance(a, ast.Starred):
-                out.extend(self.eval(a.value, env))
+                v = self.eval(a.value, env)
+                if not isinstance(v, (list, tuple, set, frozenset, range)):
+                    raise Crash(f"`{src(n)[:50]}`: argument after * must be an iterable, not {type(v).__name__}")
+                out.extend(v)
             else:
                 out.append(self.eval(a, env))
         return out
